@@ -4,14 +4,17 @@ from . import core
 
 PROP = "C06"
 DRIVER = "drv_cells"
-LEAN_MODULES = ["MesaModel.Props.C06", "MesaModel.Props.C18Cells"]
+LEAN_MODULES = ["MesaModel.Props.C06", "MesaModel.Props.C18Cells", "MesaModel.Props.C01Cells"]
 THEOREMS = ["Mesa.Cells." + t for t in (
     "C06_spaces_wellformed", "C06_mirror", "C06_capacity", "C06_views", "C06_select_random_empty_cell",
     "C06_remove_leaves_cell", "C06_direction_map_generated", "C06_invariant_all_histories",
     "C06_histories_with_connection_edits", "C06_collection_views", "C06_select_spec", "C06_select_random_spec",
     "C06_hex_direction_names", "C06_voronoi_default_capacity",
+    "C06_assignment_exact", "C06_unplace_and_fixed_exact", "C06_select_random_empty_exact", "C06_clear_cell", "C06_cell_empty_attribute",
     "C18_cells_setCell_reject_unchanged", "C18_cells_moveTo_reject_unchanged", "C18_cells_moveRelative_reject_unchanged",
-    "C18_cells_gridMove_reject_unchanged", "C18_cells_rejected_call_is_noop")]
+    "C18_cells_gridMove_reject_unchanged", "C18_cells_rejected_call_is_noop", "C18_cells_rejected_call_is_noop_with_edits",
+    # C01 on the cells model (Props/C01Cells.lean; also to be listed by harness/c01.py): audited here so that they cannot rot
+    "C01_cells_collections_carry_the_space_generator", "C01_cells_selection_determined", "C01_cells_random_empty_determined")]
 COUNTS = {"quick": 1500, "thorough": 100000}
 TRUSTED = [
     "Python object identity of cells/agents is modelled by names (cell key in space._cells, agent creation index)",
@@ -28,7 +31,8 @@ TRUSTED = [
     "consumed from the script), not modelled: the model receives the draws explicitly",
 ]
 ASSUMPTIONS = [
-    "capacities are None or integers >= 1 (the property's quantifier); cells are only reached through the space they belong to",
+    "capacities are None or integers >= 0 (0: a cell that takes nobody, repair SC3; the property's quantifier lists None, 1, k >= 1); float "
+    "capacities (Grid accepts them: 2.5 holds 3 agents and is never `is_full`) are not modelled; cells are only reached through the space they belong to",
     "Cell.connect / Cell.disconnect are called on cells of the space they belong to (connections never lead out of the space)",
 ]
 RULE = ("random histories on random spaces: Moore/von Neumann grids with 1-3 axes of size 1-4(6), hex grids, Network on random "
@@ -39,7 +43,10 @@ RULE = ("random histories on random spaces: Moore/von Neumann grids with 1-3 axe
         "select_random_empty_cell with scripted draws (misses then a hit), select_random_cell, the CellCollection API (cells, agents, len, "
         "in, [cell], select with filter_func none/is_empty/occupied/is_full/not full and at_most inf/int (also <= 0)/float fractions/"
         "floats > 1, chained, select_random_cell / select_random_agent with 0-3 scripted draws) on all_cells, empties, "
-        "get_neighborhood(r, ic), neighborhood and selections of these — ~12% of the ops}, every third scenario also with "
+        "get_neighborhood(r, ic), neighborhood and selections of these — ~12% of the ops; ~4%: `cell.agents` handed out and cleared (a copy: "
+        "nothing may change) / a cell emptied by `for a in cell.agents: a.remove()`}; 45% of the networks are not simple (self loops, repeated / "
+        "antiparallel edges, MultiGraph / MultiDiGraph), capacity 0 in 1 of 7 headers, 40% of the default-capacity Voronoi grids are also given a "
+        "`capacity` argument (overwritten by the function); every third scenario also with "
         "Cell.connect / Cell.disconnect edits (existing, new and default keys, non-cells) at the cells of movable agents; the full observation (agent.cell, "
         "cell.agents, is_empty, is_full, empty layer, cell.empty, empties, space.agents, model.agents) is compared after every op; "
         "non-trivial = at least 3 accepted placements and one rejected call or emptiness query; distinct = distinct op-line sequences")
@@ -52,7 +59,7 @@ def gen_tables():
 
 def generate(rng, tier, count):
     for i in range(count):
-        yield C.gen_c06(rng, rejecting=(i % 5 == 4), edits=(i % 3 == 0), default_caps=True)
+        yield C.gen_c06(rng, rejecting=(i % 5 == 4), edits=(i % 3 == 0), default_caps=True, rich=True)
 
 
 def generate_rejecting(rng, tier, count):
